@@ -214,6 +214,16 @@ func (w *World) note(n *Node, where string, err error) {
 	}
 }
 
+// Clean runs the node's periodic router cleaners (ping handler state,
+// connection states) once, with a worker's panic recovery.
+func (w *World) Clean(n *Node) error {
+	err := n.Router().VerifClean()
+	if err != nil {
+		w.note(n, "clean", err)
+	}
+	return err
+}
+
 // TunPacket hands one local packet to the node's tun handler.
 func (w *World) TunPacket(n *Node, pkt []byte) error {
 	err := n.Router().VerifHandleTunPacket(pkt)
